@@ -64,7 +64,9 @@ def gen_script(rng):
     return kind, P, R
 
 
-def run_script(kind, phases, resets, bound_s, yielding=False):
+def run_script(kind, phases, resets, bound_s, yielding=False, traffic=None):
+    """traffic = {"lost_at": t, "tick_every": dt}: at t the spa changes a value inside its log section and the partial update that
+    reports it is LOST; every dt seconds the spa changes another value and that partial update is delivered"""
     from geckolib import GeckoAsyncSpaMan
     res = {"events": [], "inputs": [], "samples": []}
 
@@ -87,6 +89,7 @@ def run_script(kind, phases, resets, bound_s, yielding=False):
             return {"st": str(m.spa_state).split(".")[-1], "descriptors": m._spa_descriptors is not None, "facade": m.facade is not None,
                     "spa": m._spa is not None, "pump": not pump.done()}
         net.state_fn = lambda: str(m.spa_state).split(".")[-1]
+        tstate = {"lost": False, "next_tick": (traffic or {}).get("lost_at", 0) + 5}
         pending = sorted(resets)
         left_connected_at = None
         was_connected = False
@@ -98,6 +101,24 @@ def run_script(kind, phases, resets, bound_s, yielding=False):
             hf = net.healthy_from()
             if now > 3000 or (hf is not None and now >= max([hf] + [t for t, _ in resets]) + bound_s + 5):
                 break
+            if traffic is not None and m.facade is not None:
+                from geckolib.driver import GeckoPartialStatusBlockProtocolHandler as _PS
+                lc = sim.structure
+                begin = m.facade.spa.log_class.begin
+                if not tstate["lost"] and now >= traffic["lost_at"]:
+                    tstate["lost"] = True
+                    p_ = begin + 7
+                    lc.replace_status_block_segment(p_, bytes([lc.status_block[p_] ^ 0x5A]))        # reported by a STATP that never arrives
+                if tstate["lost"] and now >= tstate["next_tick"]:
+                    tstate["next_tick"] = now + traffic["tick_every"]
+                    q_ = begin + 40
+                    data = bytes([(lc.status_block[q_] + 1) % 256, lc.status_block[q_ + 1]])
+                    lc.replace_status_block_segment(q_, data)
+                    live = [t_ for t_ in net.transports if not t_.closed]
+                    for client in list(sim._clients):
+                        if live:
+                            net.push(live[-1], _PS.report_changes(sim._socket, [(q_, data)], parms=client).send_bytes)
+                    # the client's acknowledgement comes back through the network as usual
             mode_now = net.mode()
             st_now = str(m.spa_state).split(".")[-1]
             if mode_now == "blackout" and prev_mode != "blackout":
@@ -215,12 +236,18 @@ def run(ctx):
         scripts.append(("reset-in-discovery", [], [(t, "discovery")]))
     for dt in (0.05, 0.1, 0.15, 0.25, 0.4, 0.6):
         scripts.append(("reset-twice", [], [(5.0, "steady"), (5.0 + dt, "again")]))
+    # a healthy network on which ONE partial update is lost while the spa keeps reporting other changes: only the periodic refresh
+    # can repair the mirror, and it must (within a few refresh periods)
+    scripts.append(("lost-update-under-traffic", [], []))
     for n_s, (k, P, R) in enumerate(scripts):
         yielding = n_s % 2 == 1
+        traffic = {"lost_at": 30, "tick_every": 45} if k == "lost-update-under-traffic" else None
         inp = {"kind": k, "phases": P, "resets": R, "yielding": yielding}
+        if traffic:
+            inp["traffic"] = traffic
         ctx.hist("client_handler", "yields" if yielding else "returns-at-once")
         try:
-            res = run_script(k, P, R, bound_idle, yielding)
+            res = run_script(k, P, R, bound_idle, yielding, traffic)
         except Exception as e:  # noqa
             ctx.violation(f"script-raised:{k}", inp, "the stack runs", f"{type(e).__name__}: {e}")
             continue
@@ -294,6 +321,6 @@ def run(ctx):
 
 def replay(inp):
     from common import Ctx
-    res = run_script(inp["kind"], [tuple(p) for p in inp["phases"]], [tuple(r) for r in inp["resets"]], 369, inp.get("yielding", False))
+    res = run_script(inp["kind"], [tuple(p) for p in inp["phases"]], [tuple(r) for r in inp["resets"]], 369, inp.get("yielding", False), inp.get("traffic"))
     fin = res["final"]
-    return (fin["st"] != "CONNECTED" or not fin["pump"]), fin
+    return (fin["st"] != "CONNECTED" or not fin["pump"] or not res.get("mirror_ok", True)), dict(fin, mirror_ok=res.get("mirror_ok"))
